@@ -24,6 +24,15 @@ ValidTags == {"blake3_192", "blake3_256", "rpo256"}
 \* single-field alterations of the claimed statement, and alterations of the proof
 StmtTampers == {"prog_hash", "kernel_add", "kernel_remove", "kernel_replace", "input_change", "input_append", "input_remove",
                 "output_top", "output_deep", "ovf_addr", "output_append", "output_truncate"}
+\* "every single-field alteration of the public statement": the positions at which a statement tamper is applied when a
+\* behaviour is replayed (a kind with n sites stands for n behaviours; sites beyond the statement's size do not apply)
+StmtSites(kind) == CASE kind = "prog_hash" -> 0 .. 3                      \* each element of the program hash
+                     [] kind = "input_change" -> 0 .. 15                    \* each stack input
+                     [] kind = "output_top" -> 0 .. 15                      \* each of the top 16 outputs
+                     [] kind = "output_deep" -> {"first", "middle", "last"}  \* outputs below position 15
+                     [] kind = "ovf_addr" -> {"first+1", "second+1", "middle+1", "last+1", "first:=2^32", "last:=p-1 (p-2 if it is p-1)"}
+                     [] kind \in {"input_append", "output_append"} -> {"zero", "one"}
+                     [] OTHER -> {"only"}
 ProofTampers == {"flip_byte", "truncate", "trailing_byte", "relabel_tag", "invalid_tag"}
 Tampers == StmtTampers \cup ProofTampers \cup {"none"}
 
